@@ -85,9 +85,15 @@ def rule_classify(rep: Report, repo: Repo) -> None:
     # no handler in the run loops swallows device exceptions
     for fname in ('_run_fast', '_run_featured', '_run_native'):
         f = repo.func(RUN_REL, fname)
+        # a handler that always re-raises the same exception (last statement a bare `raise`, no return / other raise before it)
+        # swallows nothing: it may record statistics on the way out
+        def reraises(h: ast.ExceptHandler) -> bool:
+            return bool(h.body) and isinstance(h.body[-1], ast.Raise) and h.body[-1].exc is None and not any(
+                isinstance(x, (ast.Return, ast.Break, ast.Continue)) or (isinstance(x, ast.Raise) and x is not h.body[-1])
+                for st in h.body for x in ast.walk(st))
         bad = [handler_types(x) for n in walk_no_nested(f) if isinstance(n, ast.Try) for x in n.handlers
-               if not set(handler_types(x)) <= {'KeyError', 'IOReadOnEOF'}]
-        rep.check(not bad, 'C18.CLASSIFY', f'{fname}:no-broad-handler', f'handlers beyond KeyError/IOReadOnEOF: {bad}',
+               if not set(handler_types(x)) <= {'KeyError', 'IOReadOnEOF'} and not reraises(x)]
+        rep.check(not bad, 'C18.CLASSIFY', f'{fname}:no-broad-handler', f'swallowing handlers beyond KeyError/IOReadOnEOF: {bad}',
                   f'{RUN_REL}:{f.lineno} {fname}')
 
 
@@ -253,16 +259,33 @@ def rule_cfail(rep: Report, cu: CUnit, repo: Optional[Repo] = None) -> None:
         if node.kind == 'cond' and isinstance(node.ast, dict) and cu.src_of(node.ast).endswith('== CAUSE_PYTHON_ERROR'):
             n_checks += 1
             t = [m for m, lab in g.succ[node.id] if lab == 'T'][0]
-            seq = []
-            cur = t
-            while g.nodes[cur].kind == 'stmt':
-                seq.append(cu.src_of(g.nodes[cur].ast))
-                cur = g.succ[cur][0][0]
-            is_ret_null = g.nodes[cur].kind == 'return' and cu.src_of(g.nodes[cur].ast) == 'return NULL'
+            # every path of the branch ends in `return NULL`; with a ring it frees the ring; an exception that is fetched
+            # (to build the kept last-ops list) is restored before the return
+            paths: List[List[str]] = []
+            def dfs(cur: int, acc: List[str], depth: int = 0) -> None:
+                nd = g.nodes[cur]
+                if depth > 60:
+                    raise AnalysisError('Memory_run: python-error branch too long')
+                if nd.kind == 'return':
+                    paths.append(acc + [cu.src_of(nd.ast)])
+                    return
+                txt = cu.src_of(nd.ast) if isinstance(nd.ast, dict) else nd.kind
+                for m2, _lab in g.succ[cur]:
+                    dfs(m2, acc + [txt], depth + 1)
+            dfs(t, [])
             ring = 'loop_cause' in cu.src_of(node.ast)
-            ok = is_ret_null and (not ring or 'free(last_ops_ring)' in seq)
-            rep.check(ok, 'C18.CFAIL', f'Memory_run:{cu.src_of(node.ast)}', f'then {seq} return NULL={is_ret_null}',
-                      cu.site(node.ast, 'Memory_run'))
+            ok = bool(paths)
+            for pth in paths:
+                calls_ = ' ; '.join(pth)
+                ok = ok and pth[-1] == 'return NULL' and (not ring or any(x == 'free(last_ops_ring)' for x in pth))
+                if 'PyErr_Fetch(' in calls_:
+                    fi = max(i for i, x in enumerate(pth) if 'PyErr_Fetch(' in x)
+                    ok = ok and any('PyErr_Restore(' in x for x in pth[fi + 1:])
+                ok = ok and not any('PyErr_Clear()' in x for x in pth if 'PyErr_Fetch(' not in calls_)
+            seq = paths[0][:6] if paths else []
+            is_ret_null = all(pth[-1] == 'return NULL' for pth in paths)
+            rep.check(ok, 'C18.CFAIL', f'Memory_run:{cu.src_of(node.ast)}', f'{len(paths)} path(s), e.g. {seq} ...; all return NULL={is_ret_null}',
+                      cu.site(node.ast, 'Memory_run'), expected='return NULL on every path, ring freed, a fetched exception restored')
     if n_checks != 3:
         raise AnalysisError(f'Memory_run: expected 3 python-error checks, found {n_checks}')
 
@@ -344,11 +367,42 @@ def rule_stats_on_raise(rep: Report, repo: Repo) -> None:
     site = f'{RUN_REL}:{fn.lineno} _run_native'
     rep.check('statistics.op_counter = ' in fin, 'C18.STATS-ON-RAISE', '_run_native:op_counter',
               'restored in finally' if 'statistics.op_counter = ' in fin else 'not restored', site)
-    ok = 'last_ops' in fin
+    # the last-ops list: restored in the finally, or in a handler that catches every exception and re-raises it
+    in_handler = [h for t in tr for h in t.handlers if set(handler_types(h)) & {'BaseException'}
+                  and isinstance(h.body[-1], ast.Raise) and h.body[-1].exc is None
+                  and any(isinstance(c, ast.Call) and dotted(c.func) == 'last_ops.extend' for st in h.body for c in ast.walk(st))]
+    ok = 'last_ops.extend(' in fin or bool(in_handler)
     rep.check(ok, 'C18.STATS-ON-RAISE', '_run_native:last_ops_addresses',
-              'restored in finally' if ok else 'the last-ops deque is filled only after a normal return of core.run; when the '
+              'restored on the exception path' if ok else 'the last-ops deque is filled only after a normal return of core.run; when the '
               'run raises (device error, KeyboardInterrupt) the native engine reports an empty list while the Python '
               'loops report the executed ops', site, expected='last-ops list valid on the exception path too')
+
+
+def rule_kept_ring(rep: Report, cu: CUnit, repo: Repo) -> None:
+    fn = repo.func(RUN_REL, '_run_native')
+    attrs = sorted({norm(c.args[0]).split('.', 1)[1] for c in ast.walk(fn) if isinstance(c, ast.Call) and dotted(c.func) == 'last_ops.extend'
+                    and c.args and norm(c.args[0]).startswith('core.')})
+    if not attrs:
+        rep.uncovered.append('C18.KEPT-RING: _run_native reads no engine attribute for the last-ops list (see C18.STATS-ON-RAISE)')
+        return
+    rep.rule('C18.KEPT-RING', 'what _run_native reads on the exception path is what the engine executed: in Memory_run the python-error '
+             'branch of the ring loop stores the list built from the ring (by the same emitter as the normal result) in the attribute '
+             'the Python side reads, the attribute is cleared at the start of every run, and its getter returns it', 3)
+    attr = attrs[0]
+    body = cu.body('Memory_run')
+    stores = [cu.src_of(n['inner'][1]) for n in walk(body) if is_assign(n) and cu.src_of(n['inner'][0]) == f'self->{attr}']
+    rep.check(len(stores) == 1 and stores[0].startswith('last_ops_ring_to_list(last_ops_ring, last_ops_length, loop_ring_writes'), 'C18.KEPT-RING',
+              f'Memory_run:self->{attr}', str(stores), cu.site(cu.func('Memory_run')), expected='the list built from the ring and its write count')
+    cleared = [cu.line_of(n) for n in walk(body) if n.get('kind') == 'CallExpr' and False]
+    src = cu.src_of(body)
+    first_loop = min([src.find(x) for x in ('run_measured_loop(', 'run_flat_loop(', 'run_generic_loop(') if src.find(x) >= 0] or [-1])
+    clr = src.find(f'Py_CLEAR(self->{attr})')
+    rep.check(0 <= clr < first_loop, 'C18.KEPT-RING', f'Memory_run:{attr} cleared first', f'Py_CLEAR at offset {clr}, first loop call at {first_loop}',
+              cu.site(cu.func('Memory_run')), expected='cleared before any loop runs (no stale list from an earlier run)')
+    getters = [f for f in cu.funcs if f.startswith('Memory_get_') and f'self->{attr}' in cu.src_of(cu.body(f))]
+    table = cu.src_of(cu.vars['Memory_getset']) if 'Memory_getset' in cu.vars else ''
+    rep.check(len(getters) == 1 and f'"{attr}", (getter){getters[0]}' in table.replace('\n', ' '), 'C18.KEPT-RING', f'getter:{attr}',
+              f'getters {getters}', cu.site(cu.func(getters[0])) if getters else '', expected='one getter registered under the attribute name')
 
 
 def check(rep: Report, repo: Optional[Repo] = None) -> None:
@@ -361,6 +415,7 @@ def check(rep: Report, repo: Optional[Repo] = None) -> None:
     rule_cfail(rep, cu, repo)
     rule_signal(rep, cu)
     rule_stats_on_raise(rep, repo)
+    rule_kept_ring(rep, cu, repo)
     rep.not_decided.append('equality of the memory snapshot at every fault point across engines (value-level)')
 
 
@@ -370,6 +425,6 @@ MANIFEST = dict(
                'actions; op count/paused time are published on every exit path (finally blocks; must-dataflow to every C '
                'return); a failed callback or signal poll reaches no later step event; the signal poll cadence is '
                'structurally bounded by SIGNAL_CHECK_MASK+1 ops. Not a proof of snapshot equality at fault points.',
-    level_note='Trusted: CPython ast, clang front end, fjverif CFGs. F09 (native last-ops list lost when the run raises) is a recorded finding.',
+    level_note='Trusted: CPython ast, clang front end, fjverif CFGs.',
     design_ref='DESIGN.md section 4 C18',
 )
